@@ -211,7 +211,7 @@ def State.init : State := ⟨[]⟩
 inductive Op
   | ev (e : Ev)
   | expire (k : Bytes)
-deriving Repr
+deriving DecidableEq, Repr
 
 inductive Res
   | pass
